@@ -159,7 +159,8 @@ class Axis(GetSetDelAttrMixin, AbstractAxis):
             # not a view: labels edited in place on the new axis would otherwise
             # change this axis behind its back (and behind its cached ordering)
             values = values.copy()
-        newaxis = Axis(values, self.name, tol=self.tol, **self.attrs)
+        newaxis = Axis(values, self.name, tol=self.tol)
+        newaxis.attrs.update(self.attrs) # (not as keyword arguments: metadata may be named 'dtype', 'tol', 'self'...)
         # slices keep the ordering
         if self._monotonic and type(item) is slice:
             newaxis._monotonic = self._monotonic
@@ -205,7 +206,9 @@ class Axis(GetSetDelAttrMixin, AbstractAxis):
         subaxis : Axis instance
         """
         values = self._values.take(indices, mode=mode)
-        return Axis(values, self.name, tol=self.tol, **self.attrs)
+        newaxis = Axis(values, self.name, tol=self.tol)
+        newaxis.attrs.update(self.attrs)
+        return newaxis
 
 
     def set(self, values=None, name=None, inplace=True, **kwargs):
